@@ -20,6 +20,8 @@ def run(rep, prog, tier):
     r2(rep, prog)
     r3(rep, prog)
     r4(rep, prog)
+    from .c04 import r5 as merge_targets
+    merge_targets(rep, prog, "C02-R5")
 
 
 def r1(rep, prog):
